@@ -112,7 +112,7 @@ class Sim:
         kind = self.server_seen[mid]
         mk = self.mark()
         if kind == "bind":
-            code = r.choice([0, 0, 14, 49])
+            code = r.choice([0, 0, 14, 49, 2, 118, 4096])
             if code == 14:
                 self.o("sasl-in-progress-round")
             if code == 49:
@@ -128,9 +128,9 @@ class Sim:
             elif x < 0.65:
                 a = ("reference", mid, ("ldap://" + mk,), H._ctl(r, 0.25))
             else:
-                a = ("done", mid, r.choice([0, 4, 10]), None, mk, H._ctl(r, 0.25))
+                a = ("done", mid, r.choice([0, 4, 10, 2, 118, 123, 65536]), None, mk, H._ctl(r, 0.25))
         else:
-            a = ("extended_response", mid, r.choice([None, "1.2.3", "1.3.6.1.4.1.1466.20037", gv.g_lookalike_oid(r, NOTICE_OID)]), r.choice([mk.encode(), mk.encode(), b"", None]), 0, None, mk, H._ctl(r, 0.25))
+            a = ("extended_response", mid, r.choice([None, "1.2.3", "1.3.6.1.4.1.1466.20037", gv.g_lookalike_oid(r, NOTICE_OID)]), r.choice([mk.encode(), mk.encode(), b"", None]), r.choice([0, 0, 2, 80, 119, 4096]), None, mk, H._ctl(r, 0.25))
         return self.api("s", a)
 
     def noise(self):
